@@ -16,6 +16,11 @@ params:
                       executor's worker must still be woken and exit
             "exitadd": the exit hook walks the registry of several idle executors' events while another thread constructs
                       one more executor
+            "ftshared": clients (threads cli<i>) call f_timeout(input, T) - the executor behind it is shared through a
+                      weak reference under a module lock and kept alive only by calls in progress and pending futures
+                      (spec/SharedTimeout.tla); `clients` = [{at, T, D}]: call time, timeout ticks, time at which the
+                      input completes by itself (0 = never); the clients keep their futures; by the end every future
+                      is done and every worker thread the calls started has exited
   pending   bool: a job is still running when the action happens (drop only: it must still complete)
   hist      list of history items for mode "refs" (ok | fail | cancel_queued | cancel_inflight | cancel_between |
             xcancel: somebody else cancels the attempt's delegate future while it is in flight)
@@ -260,6 +265,37 @@ def build(p):
         E.emit("Kept", a=len(kept))
         E.emit("End")
 
-    mains = {"thread": main_thread_mode, "refs": main_refs_mode, "keep": main_keep_mode, "exitrace": main_exitrace_mode,
+    def main_ftshared_mode():
+        from concurrent.futures import Future, InvalidStateError
+        from more_executors.futures import f_timeout
+        s = E.SCHED
+        kept = []
+        # nobody but the library ever refers to the shared executor
+        E.emit("Action", s="drop")
+
+        def client(i, c):
+            E.vsleep(max(c.get("at", 0) - E.now(), 0))
+            inp = Future()
+            E.emit("Pending", f=i)
+            fut = f_timeout(inp, c["T"] / 1000.0)
+            s.track(i, fut)
+            kept.append(fut)
+            del fut
+            if c.get("D"):
+                E.vsleep(max(c["D"] - E.now(), 0))
+                try:
+                    inp.set_result(i)
+                except InvalidStateError:
+                    pass
+
+        for i, c in enumerate(p["clients"], start=1):
+            E.spawn("cli%d" % i, client, i, c)
+        E.vsleep(10000)
+        gc.collect()
+        E.vsleep(10000)
+        E.emit("Kept", a=len(kept))
+        E.emit("End")
+
+    mains = {"thread": main_thread_mode, "ftshared": main_ftshared_mode, "refs": main_refs_mode, "keep": main_keep_mode, "exitrace": main_exitrace_mode,
              "exitadd": main_exitadd_mode}
     return mains[mode], {"horizon": 10 ** 7, "max_steps": 60000}
